@@ -46,7 +46,7 @@ def Pc.inTask : Pc → Bool
 def ContOK (c : Cfg) (x : Option Item) : Pc → Prop
   | .xRet id => x = none ∨ x = some (.task id)
   | .xWkRet => x = none ∨ x = some .wakeup
-  | .rRet id cid => (x = none ∨ x = some (.task cid)) ∧ id ≠ cid
+  | .rRet _ cid => x = none ∨ x = some (.task cid)
   | .bSweep _ => True
   | k => (x = none ∨ x = some .stop) ∧ ∃ n, k = markChain c n
 
@@ -54,7 +54,6 @@ def ContOK (c : Cfg) (x : Option Item) : Pc → Prop
 def PcWF (c : Cfg) : Pc → Prop
   | .gTake x k => ContOK c (some x) k
   | .gPub _ k => ContOK c none k
-  | .rSz0 id cid | .rSz1 id cid _ | .rLLd id cid | .rLSt id cid _ | .rLPub id cid _ | .rRet id cid => id ≠ cid
   | _ => True
 
 theorem markChain_role (c : Cfg) (n : Nat) : (markChain c n).role = .stopper := by
@@ -71,6 +70,21 @@ theorem markChain_inTask (c : Cfg) (n : Nat) : (markChain c n).inTask = false :=
   induction n with
   | zero => simp only [markChain]; split <;> rfl
   | succ n ih => simpa [markChain, Pc.inTask] using ih
+
+theorem markChain_cases (c : Cfg) (n : Nat) :
+    markChain c n = .sEnd ∨ markChain c n = .sJoinW 0 ∨ ∃ m, markChain c n = .gTake .stop (markChain c m) := by
+  cases n with
+  | zero => simp only [markChain]; split <;> simp
+  | succ m => exact Or.inr (Or.inr ⟨m, rfl⟩)
+
+theorem markChain_ne (c : Cfg) (n : Nat) :
+    markChain c n ≠ .sLd ∧ markChain c n ≠ .sSt ∧ markChain c n ≠ .sJoinB ∧ markChain c n ≠ .idle ∧ markChain c n ≠ .exited := by
+  rcases markChain_cases c n with h | h | ⟨m, h⟩ <;> simp [h]
+
+theorem afterStore_ne (c : Cfg) : afterStore c ≠ .sLd ∧ afterStore c ≠ .sSt := by
+  unfold afterStore; split
+  · simp
+  · exact ⟨(markChain_ne c _).1, (markChain_ne c _).2.1⟩
 
 theorem contOK_stopper (c : Cfg) (x : Option Item) (k : Pc) (hr : k.role = .stopper)
     (hx : x = none ∨ x = some .stop) (hk : ∃ n, k = markChain c n) : ContOK c x k := by
@@ -102,6 +116,7 @@ structure Inv1 (c : Cfg) (s : State) : Prop where
   r4 : ∀ t, t ∈ c.workers → (s.pc t).role = .worker ∨ s.pc t = .exited
   r5 : ∀ b, c.bal = some b → (s.pc b).role = .bal ∨ s.pc b = .exited
   r6 : s.stopCalled = false → s.stopper = none
+  run0 : s.stopCalled = false → s.running = true
   run1 : ∀ t, s.pc t = .sLd ∨ s.pc t = .sSt → s.running = true
   o1 : ∀ k w, s.owner k = some w → s.own w = some k
   o2 : ∀ w k, s.own w = some k → (s.pc w).role = .worker → s.owner k = some w
@@ -111,51 +126,55 @@ structure Inv1 (c : Cfg) (s : State) : Prop where
 
 /-! ### facts about the helper program counters -/
 
-@[simp] theorem role_afterLdRunS (v : Bool) : (afterLdRunS v).role = .stopper := by cases v <;> rfl
-@[simp] theorem role_afterLdRunB (v : Bool) : (afterLdRunB v).role = .bal := by cases v <;> rfl
-@[simp] theorem role_afterJoinW (c : Cfg) (n : Nat) : (afterJoinW c n).role = .stopper := by
+@[simp, exec_proj] theorem role_afterLdRunS (v : Bool) : (afterLdRunS v).role = .stopper := by cases v <;> rfl
+@[simp, exec_proj] theorem role_afterLdRunB (v : Bool) : (afterLdRunB v).role = .bal := by cases v <;> rfl
+@[simp, exec_proj] theorem role_afterJoinW (c : Cfg) (n : Nat) : (afterJoinW c n).role = .stopper := by
   unfold afterJoinW; split <;> rfl
-@[simp] theorem role_afterSubmit (c : Cfg) (b : Bool) (id cid : Nat) : (afterSubmit c b id cid).role = .worker := by
+@[simp, exec_proj] theorem role_afterSubmit (c : Cfg) (b : Bool) (id cid : Nat) : (afterSubmit c b id cid).role = .worker := by
   unfold afterSubmit; split <;> rfl
-@[simp] theorem role_afterSize (c : Cfg) (p a id cid : Nat) : (afterSize c p a id cid).role = .worker := by
+@[simp, exec_proj] theorem role_afterSize (c : Cfg) (p a id cid : Nat) : (afterSize c p a id cid).role = .worker := by
   unfold afterSize; split <;> rfl
-@[simp] theorem role_dispatchPc (x : Item) : (dispatchPc x).role = .worker := by cases x <;> rfl
-@[simp] theorem role_claimPc (ctx : PopCtx) (x : Item) (i : Nat) (nr : Bool) :
-    (claimPc ctx x).role = (Pc.chk ctx i nr).role := by
+@[simp, exec_proj] theorem role_dispatchPc (x : Item) : (dispatchPc x).role = .worker := by cases x <;> rfl
+/-- role of the thread that performs a `try_pop` in context `ctx` -/
+def PopCtx.role : PopCtx → Role
+  | .own => .worker
+  | .steal _ => .worker
+  | .bal _ => .bal
+@[simp, exec_proj] theorem role_chk (ctx : PopCtx) (i : Nat) (nr : Bool) : (Pc.chk ctx i nr).role = ctx.role := by
+  cases ctx <;> rfl
+@[simp, exec_proj] theorem role_claimPc (ctx : PopCtx) (x : Item) : (claimPc ctx x).role = ctx.role := by
   cases ctx <;> cases x <;> rfl
-@[simp] theorem role_onEmpty (ctx : PopCtx) (i : Nat) (nr : Bool) : ctx.onEmpty.role = (Pc.chk ctx i nr).role := by
+@[simp, exec_proj] theorem role_onEmpty (ctx : PopCtx) : ctx.onEmpty.role = ctx.role := by
   cases ctx <;> rfl
-@[simp] theorem role_chk_irrel (ctx : PopCtx) (i j : Nat) (a b : Bool) : (Pc.chk ctx i a).role = (Pc.chk ctx j b).role := by
-  cases ctx <;> rfl
-@[simp] theorem role_afterStore (c : Cfg) : (afterStore c).role = .stopper := afterStore_role c
-@[simp] theorem role_markChain (c : Cfg) (n : Nat) : (markChain c n).role = .stopper := markChain_role c n
+@[simp, exec_proj] theorem role_afterStore (c : Cfg) : (afterStore c).role = .stopper := afterStore_role c
+@[simp, exec_proj] theorem role_markChain (c : Cfg) (n : Nat) : (markChain c n).role = .stopper := markChain_role c n
 
-@[simp] theorem inTask_afterLdRunS (v : Bool) : (afterLdRunS v).inTask = false := by cases v <;> rfl
-@[simp] theorem inTask_afterLdRunB (v : Bool) : (afterLdRunB v).inTask = false := by cases v <;> rfl
-@[simp] theorem inTask_afterJoinW (c : Cfg) (n : Nat) : (afterJoinW c n).inTask = false := by
+@[simp, exec_proj] theorem inTask_afterLdRunS (v : Bool) : (afterLdRunS v).inTask = false := by cases v <;> rfl
+@[simp, exec_proj] theorem inTask_afterLdRunB (v : Bool) : (afterLdRunB v).inTask = false := by cases v <;> rfl
+@[simp, exec_proj] theorem inTask_afterJoinW (c : Cfg) (n : Nat) : (afterJoinW c n).inTask = false := by
   unfold afterJoinW; split <;> rfl
-@[simp] theorem inTask_afterSubmit (c : Cfg) (b : Bool) (id cid : Nat) : (afterSubmit c b id cid).inTask = true := by
+@[simp, exec_proj] theorem inTask_afterSubmit (c : Cfg) (b : Bool) (id cid : Nat) : (afterSubmit c b id cid).inTask = true := by
   unfold afterSubmit; split <;> rfl
-@[simp] theorem inTask_afterSize (c : Cfg) (p a id cid : Nat) : (afterSize c p a id cid).inTask = true := by
+@[simp, exec_proj] theorem inTask_afterSize (c : Cfg) (p a id cid : Nat) : (afterSize c p a id cid).inTask = true := by
   unfold afterSize; split <;> rfl
-@[simp] theorem inTask_dispatchPc (x : Item) : (dispatchPc x).inTask = false := by cases x <;> rfl
-@[simp] theorem inTask_claimPc (ctx : PopCtx) (x : Item) : (claimPc ctx x).inTask = false := by
+@[simp, exec_proj] theorem inTask_dispatchPc (x : Item) : (dispatchPc x).inTask = false := by cases x <;> rfl
+@[simp, exec_proj] theorem inTask_claimPc (ctx : PopCtx) (x : Item) : (claimPc ctx x).inTask = false := by
   cases ctx <;> cases x <;> rfl
-@[simp] theorem inTask_onEmpty (ctx : PopCtx) : ctx.onEmpty.inTask = false := by cases ctx <;> rfl
-@[simp] theorem inTask_afterStore (c : Cfg) : (afterStore c).inTask = false := by
+@[simp, exec_proj] theorem inTask_onEmpty (ctx : PopCtx) : ctx.onEmpty.inTask = false := by cases ctx <;> rfl
+@[simp, exec_proj] theorem inTask_afterStore (c : Cfg) : (afterStore c).inTask = false := by
   unfold afterStore; split
   · rfl
   · exact markChain_inTask c _
-@[simp] theorem inTask_markChain (c : Cfg) (n : Nat) : (markChain c n).inTask = false := markChain_inTask c n
+@[simp, exec_proj] theorem inTask_markChain (c : Cfg) (n : Nat) : (markChain c n).inTask = false := markChain_inTask c n
 
-theorem wf_afterSubmit (c : Cfg) (b : Bool) (id cid : Nat) (h : id ≠ cid) : PcWF c (afterSubmit c b id cid) := by
+theorem wf_afterSubmit (c : Cfg) (b : Bool) (id cid : Nat) : PcWF c (afterSubmit c b id cid) := by
   unfold afterSubmit; split
-  · exact h
-  · exact ⟨Or.inr rfl, h⟩
-theorem wf_afterSize (c : Cfg) (p a id cid : Nat) (h : id ≠ cid) : PcWF c (afterSize c p a id cid) := by
+  · trivial
+  · exact Or.inr rfl
+theorem wf_afterSize (c : Cfg) (p a id cid : Nat) : PcWF c (afterSize c p a id cid) := by
   unfold afterSize; split
-  · exact h
-  · exact ⟨Or.inr rfl, h⟩
+  · trivial
+  · exact Or.inr rfl
 theorem wf_afterStore (c : Cfg) : PcWF c (afterStore c) := by
   unfold afterStore; split
   · trivial
@@ -173,7 +192,6 @@ theorem wf_onEmpty (c : Cfg) (ctx : PopCtx) : PcWF c ctx.onEmpty := by cases ctx
 theorem wf_of_cont (c : Cfg) (x : Option Item) (k : Pc) (h : ContOK c x k) : PcWF c k := by
   cases k <;> first
     | trivial
-    | exact h.2
     | (obtain ⟨_, n, hn⟩ := h; rw [hn]; exact markChain_wf c n)
 
 /-- once the ticket is taken the item no longer matters -/
@@ -182,6 +200,27 @@ theorem cont_forget (c : Cfg) (x : Item) (k : Pc) (h : ContOK c (some x) k) : Co
     | exact Or.inl rfl
     | trivial
     | exact ⟨Or.inl rfl, h.2⟩
+
+/-- none of the helper program counters is an entry point of `stop()` or `keep_execute` -/
+theorem dispatchPc_ne (x : Item) : dispatchPc x ≠ .sLd ∧ dispatchPc x ≠ .sSt ∧ dispatchPc x ≠ .wInit := by
+  cases x <;> simp [dispatchPc]
+theorem claimPc_ne (ctx : PopCtx) (x : Item) : claimPc ctx x ≠ .sLd ∧ claimPc ctx x ≠ .sSt ∧ claimPc ctx x ≠ .wInit := by
+  cases ctx <;> cases x <;> simp [claimPc, dispatchPc]
+theorem onEmpty_ne (ctx : PopCtx) : ctx.onEmpty ≠ .sLd ∧ ctx.onEmpty ≠ .sSt ∧ ctx.onEmpty ≠ .wInit := by
+  cases ctx <;> simp [PopCtx.onEmpty]
+theorem markChain_ne_wInit (c : Cfg) (n : Nat) : markChain c n ≠ .wInit := by
+  rcases markChain_cases c n with h | h | ⟨m, h⟩ <;> simp [h]
+theorem afterStore_ne_wInit (c : Cfg) : afterStore c ≠ .wInit := by
+  unfold afterStore; split
+  · simp
+  · exact markChain_ne_wInit c _
+/-- a well-formed continuation is not an entry point -/
+theorem cont_ne (c : Cfg) (x : Option Item) (k : Pc) (h : ContOK c x k) : k ≠ .sLd ∧ k ≠ .sSt ∧ k ≠ .wInit := by
+  cases k <;> simp_all [ContOK]
+  all_goals (obtain ⟨_, n, hn⟩ := h)
+  · exact (markChain_ne c n).1 hn.symm
+  · exact (markChain_ne c n).2.1 hn.symm
+  · exact markChain_ne_wInit c n hn.symm
 
 /-- every step changes only the program counter of the stepping thread -/
 theorem pc_frame {c : Cfg} {s s' : State} {t : Nat} {lb : Lbl} (h : StepCase c s t lb s') :
